@@ -76,8 +76,12 @@ func (c *Context) SpawnChild(p Producer, name string, opts ...OptFunc) *PID {
 	}
 	proc := newProcess(c.engine, options)
 	proc.context.parentCtx = c
-	pid := c.engine.SpawnProc(proc)
-	c.children.Set(pid.ID, pid)
+	// Record the child before it starts: a child that stops during its own
+	// start (it panics in Started with no restart budget left) removes itself
+	// from this map again. Recording it afterwards left that dead child in
+	// Children() forever.
+	c.children.Set(proc.PID().ID, proc.PID())
+	c.engine.SpawnProc(proc)
 
 	return proc.PID()
 }
